@@ -72,6 +72,13 @@ func (e *constEnv) eval(x ast.Expr) (constant.Value, error) {
 			}
 			return constant.MakeInt64(int64(len(constant.StringVal(a)))), nil
 		}
+		if id, ok := v.Fun.(*ast.Ident); ok && len(v.Args) == 1 {
+			switch id.Name {
+			case "byte", "uint8", "rune", "int", "int32", "int64", "uint", "uint16", "uint32", "uint64":
+				// a constant conversion keeps the value (the compiler rejects one that does not fit)
+				return e.eval(v.Args[0])
+			}
+		}
 		return nil, fmt.Errorf("unsupported call in constant")
 	case *ast.SliceExpr:
 		s, err := e.eval(v.X)
